@@ -64,6 +64,8 @@ Accepts(ev) ==
                    ~ShortNumbers(ev["in"]) \/ ev.outcome # "completed" \/ ev.out = F!Render(ev["in"], <<[kind |-> "int", v |-> 10, s |-> <<>>], [kind |-> "int", v |-> 200, s |-> <<>>], [kind |-> "str", v |-> 0, s |-> <<115>>]>>))))
          /\ (ev.parser # "cmdline" \/
              (/\ G("C20", "OptionTargetsPointIntoTheCommandLine", ev.targets_inside = 1)
+              \* a command line without quotes is a defined input: the parser has nothing to assert about it
+              /\ G("C20", "UnquotedCommandLineCompletes", NoQuotes(ev["in"]) => ev.outcome = "completed")
               /\ G("C20", "UnquotedCommandLineMeaning",
                    (ev.table = 0 /\ NoQuotes(ev["in"]) /\ ev.outcome = "completed" /\ ev.num < 1000000000 /\ ShortNumbers(ev["in"])) =>
                       LET r == CmdRef(ev["in"]) IN ev.flag = r.flag /\ ev.sv = r.sv /\ DigitsOfNat(ev.num) = r.num)))
